@@ -23,6 +23,15 @@ func TestC02(t *testing.T) {
 				return f.Cat == core.CatBatchQuery && len(s.Ops) > 0 && s.Ops[len(s.Ops)-1].K == core.OpBuildBatch
 			},
 		},
+		Once: func(t *testing.T, st *core.Stats) {
+			// beyond the generated sizes: 16-bit boundaries of entity ids and table rows
+			for _, n := range []int{65537, 70001} {
+				if msg := bigWorldProbe(n, false); msg != "" {
+					probeFail(t, "C02", "bigworld", msg)
+				}
+				st.Count("big_world_probes", 1)
+			}
+		},
 		Mix: core.Mix{
 			core.OpNew: 10, core.OpNewWith: 3, core.OpBuildNew: 5, core.OpBuildBatch: 12,
 			core.OpRemoveEnt: 22, core.OpRemoveEnts: 5, core.OpReset: 1, core.OpDumpLoad: 2, core.OpDumpSave: 2, core.OpDumpRestore: 2,
